@@ -32,18 +32,25 @@ def run_tlapm(module, wd, timeout=1800):
     src = os.path.join(SPEC, module + ".tla")
     dst = os.path.join(wd, module + ".tla")
     _sh.copy(src, dst)
-    try:
-        rc, out = sh(["tlapm", "--threads", "8", "--cleanfp", module + ".tla"], cwd=wd, timeout=timeout)
-    except subprocess.TimeoutExpired:
-        raise ToolError("tlapm timed out on " + module)
-    open(os.path.join(wd, module + ".tlapm.out"), "w").write(out)
-    m = re.search(r"All (\d+) obligations? proved", out)
-    if m:
-        return int(m.group(1)), int(m.group(1)), out
-    m = re.search(r"(\d+)/(\d+) obligations? failed", out)
-    if m:
-        return int(m.group(2)), int(m.group(2)) - int(m.group(1)), out
-    raise ToolError("tlapm: unexpected output for %s: %s" % (module, out[-500:]))
+    # The back-end provers run under wall-clock limits, so on a loaded machine an obligation can time out that is
+    # proved in a second otherwise: the first attempt starts from a clean fingerprint cache, further attempts keep
+    # what was proved and give the remaining obligations 4x / 10x the time.
+    res = None
+    for attempt, extra in enumerate((["--cleanfp"], ["--stretch", "4"], ["--stretch", "10"])):
+        try:
+            rc, out = sh(["tlapm", "--threads", "8"] + extra + [module + ".tla"], cwd=wd, timeout=timeout)
+        except subprocess.TimeoutExpired:
+            raise ToolError("tlapm timed out on " + module)
+        open(os.path.join(wd, module + ".tlapm.%d.out" % attempt), "w").write(out)
+        m = re.search(r"All (\d+) obligations? proved", out)
+        if m:
+            return int(m.group(1)), int(m.group(1)), out
+        m = re.search(r"(\d+)/(\d+) obligations? failed", out)
+        if not m:
+            raise ToolError("tlapm: unexpected output for %s: %s" % (module, out[-500:]))
+        res = (int(m.group(2)), int(m.group(2)) - int(m.group(1)), out)
+        log("[tlapm] attempt %d: %d of %d obligations not proved (time limit?) - retrying with more time" % (attempt + 1, res[0] - res[1], res[0]))
+    return res
 
 WITNESS_OPS = {"contents", "sorted"}
 
